@@ -3,6 +3,8 @@ EXTENDS XrlEquiv, XrlChunks
 BadOf(i, ev) == IF ev.k = "jrow" THEN { [prop |-> "C19", line |-> i, fn |-> ev.fn, Z |-> ev.Z, a |-> ev.diff[k].a, d |-> [m \in 1..3 |-> FStr(ev.diff[k].d[m])], s |-> ev.diff[k].s,
                                          why |-> Why(ev.fn, ev.diff[k].c, ev.diff[k].j), c |-> ev.diff[k].c, j |-> ev.diff[k].j, exc |-> ev.diff[k].exc] :
                                         k \in { k \in 1..Len(ev.diff) : ~SameNear(ev.fn, ev.diff[k].c, ev.diff[k].j, ev.diff[k].sc, ev.diff[k].alt) \/ ~EdgeExact(ev.diff[k]) } }
+                ELSE IF ev.k = "jmt" /\ ev.mismatch # 0
+                THEN {[prop |-> "C19", line |-> i, why |-> "the same Java calls made from several threads at once returned something else than alone (C answers every thread as it answers a single one: C17)", threads |-> ev.threads, calls |-> ev.calls, mismatch |-> ev.mismatch, first |-> ev.first]}
                 ELSE {}
 Judged == JudgedWith(BadOf)
 ============================================================================
